@@ -311,6 +311,10 @@ def check_property(pid, tier, seed, replay=None):
             for sec, why in sorted(gen.get("failed", {}).items()):
                 # the section is generated empty / zero: whatever depends on it stops checking below (proof or correspondence)
                 notes.append("translator: section '%s' could not be extracted from the current source (%s)" % (sec, why[:200]))
+                # a value the compiler sees differs from what the source text says: the generated table (source text) no longer
+                # describes the compiled code - a broken tie for the properties that use the table
+                if sec.endswith("-compiled") and sec.split("-compiled")[0] in P.get("tables", []):
+                    proof_problems.append("translator: %s: %s" % (sec, why[:300]))
         except (SystemExit, Exception) as e:
             proof_problems.append("translator failed: %s" % e)
             gen = None
